@@ -716,7 +716,15 @@ func runPktzHist(c *Case, codec pktzCodec, mtu int, pt int, ssrc, ts0 uint32, se
 				bogus("G")
 				continue
 			}
-			later = append(later, func() { c.O.Tok("G"); pktzObsPkts(&c.O, pkts) })
+			later = append(later, func() {
+				if len(pkts) > pktzDeltaMin {
+					c.O.Tok("Gd")
+					pktzObsPktsDelta(&c.O, pkts)
+					return
+				}
+				c.O.Tok("G")
+				pktzObsPkts(&c.O, pkts)
+			})
 			see(pkts)
 			if op.n > 0 {
 				tags["G:n>0"] = true
@@ -814,9 +822,13 @@ func genC06Hist(x *Ctx) {
 		}
 	}
 	// --- many padding packets in one call (count boundaries of narrower integer types)
-	bigPads := []int{254, 255, 256, 257, 300}
+	// bursts of more than 1024 packets are transported in the delta form (pktzObsPktsDelta: every
+	// packet still observed in full); one burst LONGER than the 16-bit sequence space in the quick
+	// tier (≈ 5 s of one worker, 0.6 GB in the model process: the model builds all 65536 packets),
+	// its neighbours in the thorough tier (seed C06-r5-3)
+	bigPads := []int{254, 255, 256, 257, 300, 1025, 65536}
 	if x.Thorough() {
-		bigPads = append(bigPads, 1000, 65535, 65536, 65537)
+		bigPads = append(bigPads, 1000, 65535, 65537, 100000)
 	}
 	for _, n := range bigPads {
 		n := n
@@ -915,7 +927,11 @@ func genC06Hist(x *Ctx) {
 				case k < 14:
 					ops = append(ops, pktzOp{kind: 'S', n: pktzPickSamples(r)})
 				case k < 17:
-					ops = append(ops, pktzOp{kind: 'G', n: uint32(r.Pick(0, 1, 1, 2, 3, 5, r.Intn(12)))})
+					n := r.Pick(0, 1, 1, 2, 3, 5, r.Intn(12))
+					if r.Chance(1, 40) {
+						n = r.Pick(255, 256, 257, r.Range(12, 400)) // a long burst now and then
+					}
+					ops = append(ops, pktzOp{kind: 'G', n: uint32(n)})
 				default:
 					if absOn || r.Chance(1, 3) {
 						curID = r.Pick(0, r.Range(1, 14), r.Range(1, 14))
